@@ -179,6 +179,13 @@ def _check_input(ctx, ctx0, r, inp):
             d.update({"what": "%d leaves of the returned tree are faulty but not zero-length, or zero-length but not faulty" % inp.odd_lexemes})
             ctx.violation(d, tag="treevalid")
             ok = False
+        if inp.misplaced_inserts:
+            d = dict(base)
+            d.update({"what": "%d inserted (zero-length) leaves are not at the position of the next real lexeme (replay lexer: lexeme i "
+                              "starts at offset 2i; an inserted lexeme before lexeme i must be at 2i, not at the end of lexeme i-1)"
+                              % inp.misplaced_inserts})
+            ctx.violation(d, tag="treevalid")
+            ok = False
         if not cfg.tree_valid(r.dgram, t):
             d = dict(base)
             d.update({"what": "the returned tree is not built from productions of the grammar"})
